@@ -2,7 +2,7 @@
    Every theorem is universally quantified over the message parser (parse : wire -> what
    dns.message.from_wire finds), over the script of socket events (datagrams, would-blocks with
    their duration, chunk sizes, EOF), the clock, the deadline and the five option flags. *)
-From DV Require Import Base.Prelude Model.NameM Model.NetM Proofs.NameOrder Proofs.NetUdp Proofs.NetStream.
+From DV Require Import Base.Prelude Model.NameM Model.NetM Proofs.NameOrder Proofs.NetUdp Proofs.NetStream Proofs.NetAsync.
 Open Scope Z_scope.
 
 (* ---------------- the acceptance predicate ---------------- *)
@@ -335,6 +335,39 @@ Theorem fallback_on_truncation :
     end.
 Proof. exact NetStream.fallback_on_truncation. Qed.
 Print Assumptions fallback_on_truncation.
+
+(* ---------------- dns.asyncquery = dns.query on the primitives ---------------- *)
+(* the loops of asyncquery.py over backend sockets that wait by themselves (timeout recomputed per
+   call from the absolute expiration) compute exactly what the selector-based loops of query.py
+   compute, for every script whose would-blocks last a non-negative time: all theorems above
+   about net_read / net_write_loop / receive_udp hold verbatim for _read_exactly / sendall /
+   asyncquery.receive_udp *)
+Theorem async_read_exactly_eq_net_read :
+  forall exp sk count, Forall r_ok (rs_evs sk) ->
+  aread_exactly (length (rs_evs sk) + 2) exp (rs_evs sk) (rs_stream sk) count [] (rs_now sk)
+  = net_read exp sk count.
+Proof. exact NetAsync.async_read_exactly_eq_net_read. Qed.
+Print Assumptions async_read_exactly_eq_net_read.
+
+Theorem async_sendall_eq_net_write :
+  forall exp evs data now, Forall w_ok evs ->
+  asendall (call_deadline now exp) evs data [] now = net_write_loop exp evs data [] now.
+Proof. exact NetAsync.async_sendall_eq_net_write. Qed.
+Print Assumptions async_sendall_eq_net_write.
+
+Theorem async_receive_udp_eq :
+  forall parse af dest exp o query evs now i, Forall u_ok evs ->
+  areceive_udp parse (S (length evs)) af dest exp o query evs now i
+  = receive_udp parse af dest exp o query evs now i.
+Proof. exact NetAsync.async_receive_udp_eq. Qed.
+Print Assumptions async_receive_udp_eq.
+
+Theorem udp_answer_within_timeout :
+  forall (parse : list Z -> pabs) q qwire where_ T af o evs now i r wire t from rest,
+  udp parse q qwire where_ (Some T) af o [] evs now = (i, Ok (r, wire, t, from, rest)) ->
+  t = 0 \/ t < T.
+Proof. exact NetUdp.udp_answer_within_timeout. Qed.
+Print Assumptions udp_answer_within_timeout.
 
 (* ---------------- non-vacuity ---------------- *)
 
